@@ -141,7 +141,7 @@ func main() {
 	run.MaxReplays = 40
 	nb := 8
 	passes := run.Pick(1, 10)
-	args := batchArgs{NB: nb, SlowKeep: run.Pick(4, 1), Seq: run.Pick(16, 80), HTTPExtra: run.Pick(2, 6), Malformed: run.Pick(40, 120), Whip: run.Pick(6, 20), RTP: run.Pick(5, 10), RTPPkts: run.Pick(800, 3000)}
+	args := batchArgs{NB: nb, SlowKeep: run.Pick(4, 1), Seq: run.Pick(16, 80), HTTPExtra: run.Pick(2, 6), Malformed: run.Pick(40, 120), Whip: run.Pick(6, 20), RTP: run.Pick(6, 12), RTPPkts: run.Pick(800, 3000)}
 	type job struct {
 		b    uint64
 		pass int
@@ -260,6 +260,7 @@ func floors(run *vk.Run, jobs int) {
 		run.FloorCounter("rtp_sessions_established:"+cd.name, int64(jobs)/2)
 		run.FloorCounter("rtp_packets_sent:"+cd.name, int64(jobs)*200)
 	}
+	run.FloorCounter("unlisted_profile_streams_offered_to_the_receivers", 1)
 	run.FloorCounter("rtcp_packets_sent", int64(jobs)*50)
 	run.FloorCounter("rtp_packets_forwarded_to_subscribers", int64(jobs)*200)
 	run.FloorCounter("recordings_written", int64(jobs))
